@@ -31,7 +31,8 @@ type C19Op struct {
 	Kind   string `json:"kind"` // set update delete filter map find each eachsafe get getvalue has len json add data
 	Key    int    `json:"key,omitempty"`
 	Mask   int    `json:"mask,omitempty"`    // filter: bit k set = keep key k; find: target key (Key) or none (Mask=1)
-	FailAt int    `json:"fail_at,omitempty"` // each/map: the callback returns an error at its i-th invocation (1-based)
+	FailAt int    `json:"fail_at,omitempty"` // each/map: the callback returns an error at its i-th invocation (1-based); filter: it panics there
+	Panic  bool   `json:"panic,omitempty"`   // each/map/find/update: the callback panics (at its FailAt-th invocation; update: at its only one) and the caller recovers
 }
 
 type C19World struct {
@@ -304,6 +305,20 @@ var c19ReplayTape = simrt.NewReplayTape([simrt.NKinds][]uint32{})
 var errNoJSON = errors.New("not judged")
 var errInjected = errors.New("injected callback failure")
 
+// c19Recovered runs f and swallows the injected panic (and nothing else).
+func c19Recovered(f func()) (threw bool) {
+	defer func() {
+		if r := recover(); r != nil {
+			if r != interface{}(errInjected) {
+				panic(r)
+			}
+			threw = true
+		}
+	}()
+	f()
+	return false
+}
+
 // ---- the run -------------------------------------------------------------------
 
 type c19Result struct {
@@ -437,18 +452,26 @@ func c19Task(w *C19World, res *c19Result) {
 			nextID++
 			id := nextID
 			called := false
-			cm.Update(k, func(old int) int {
-				called = true
-				if j := m.idx(k); j < 0 || m.e[j].id != old {
-					fail(i, op, "Update callback received a wrong value", "", strconv.Itoa(old))
-				}
-				return id
+			threw := c19Recovered(func() {
+				cm.Update(k, func(old int) int {
+					called = true
+					if j := m.idx(k); j < 0 || m.e[j].id != old {
+						fail(i, op, "Update callback received a wrong value", "", strconv.Itoa(old))
+					}
+					if op.Panic {
+						res.cbPanics++
+						panic(errInjected)
+					}
+					return id
+				})
 			})
 			if j := m.idx(k); j >= 0 {
 				if !called {
 					fail(i, op, "Update did not call back for a present key", "", "")
 				}
-				m.e[j].id = id
+				if !threw {
+					m.e[j].id = id // a callback that panicked returned no value: the old one stays
+				}
 			} else if called {
 				fail(i, op, "Update called back for an absent key", "", "")
 			}
@@ -523,19 +546,26 @@ func c19Task(w *C19World, res *c19Result) {
 			n := 0
 			var planned []modelEntry
 			var offered []modelEntry
-			err := cm.Map(func(kk, id int) (int, error) {
-				n++
-				offered = append(offered, modelEntry{kk, id})
-				if op.FailAt > 0 && n == op.FailAt {
-					res.cbErrs++
-					return id, errInjected
-				}
-				nextID++
-				planned = append(planned, modelEntry{kk, nextID})
-				return nextID, nil
+			var err error
+			threw := c19Recovered(func() {
+				err = cm.Map(func(kk, id int) (int, error) {
+					n++
+					offered = append(offered, modelEntry{kk, id})
+					if op.FailAt > 0 && n == op.FailAt {
+						if op.Panic {
+							res.cbPanics++
+							panic(errInjected)
+						}
+						res.cbErrs++
+						return id, errInjected
+					}
+					nextID++
+					planned = append(planned, modelEntry{kk, nextID})
+					return nextID, nil
+				})
 			})
 			failed := op.FailAt > 0 && op.FailAt <= len(m.e)
-			if failed != (err != nil) {
+			if failed != (err != nil || threw) {
 				fail(i, op, "Map error propagation", fmt.Sprint(failed), fmt.Sprint(err))
 			}
 			// iteration order is an observable: the callback must be offered the
@@ -577,35 +607,55 @@ func c19Task(w *C19World, res *c19Result) {
 				target = -1
 			}
 			var offered []int
-			gk, gid, ok := cm.Find(func(kk, id int) bool { offered = append(offered, kk); return kk == target })
+			var gk, gid int
+			var ok bool
+			threw := c19Recovered(func() {
+				gk, gid, ok = cm.Find(func(kk, id int) bool {
+					offered = append(offered, kk)
+					if op.Panic && op.FailAt > 0 && len(offered) == op.FailAt {
+						res.cbPanics++
+						panic(errInjected)
+					}
+					return kk == target
+				})
+			})
 			j := m.idx(target)
 			var wantOffered []int
 			for _, e := range m.e {
 				wantOffered = append(wantOffered, e.k)
-				if e.k == target {
+				if e.k == target || (op.Panic && len(wantOffered) == op.FailAt) {
 					break
 				}
 			}
 			if fmt.Sprint(offered) != fmt.Sprint(wantOffered) {
 				fail(i, op, "Find did not offer the entries to the predicate in insertion order", fmt.Sprint(wantOffered), fmt.Sprint(offered))
 			}
-			if ok != (j >= 0) || (ok && (gk != target || gid != m.e[j].id)) {
+			// a predicate that panicked: no result to judge; the content (read-only
+			// operation) is compared with the unchanged model below
+			if !threw && ok != (j >= 0) || (!threw && ok && (gk != target || gid != m.e[j].id)) {
 				fail(i, op, "Find result", fmt.Sprint(j >= 0), fmt.Sprint(gk, gid, ok))
 			}
 		case "each":
 			n := 0
 			var seen []modelEntry
-			err := cm.Each(func(kk, id int) error {
-				n++
-				if op.FailAt > 0 && n == op.FailAt {
-					res.cbErrs++
-					return errInjected
-				}
-				seen = append(seen, modelEntry{kk, id})
-				return nil
+			var err error
+			threw := c19Recovered(func() {
+				err = cm.Each(func(kk, id int) error {
+					n++
+					if op.FailAt > 0 && n == op.FailAt {
+						if op.Panic {
+							res.cbPanics++
+							panic(errInjected)
+						}
+						res.cbErrs++
+						return errInjected
+					}
+					seen = append(seen, modelEntry{kk, id})
+					return nil
+				})
 			})
 			failed := op.FailAt > 0 && op.FailAt <= len(m.e)
-			if failed != (err != nil) {
+			if failed != (err != nil || threw) {
 				fail(i, op, "Each error propagation", fmt.Sprint(failed), fmt.Sprint(err))
 			}
 			want := m.e
@@ -791,6 +841,16 @@ func genC19(seed uint64, maxOps int) *World {
 		if op.Kind == "filter" && r.pct(25) {
 			op.FailAt = 1 + r.n(nk)
 		}
+		switch op.Kind {
+		case "each", "map":
+			op.Panic = op.FailAt > 0 && r.pct(30)
+		case "find":
+			if r.pct(15) {
+				op.Panic, op.FailAt = true, 1+r.n(nk)
+			}
+		case "update":
+			op.Panic = r.pct(10)
+		}
 		cw.Ops = append(cw.Ops, op)
 	}
 	b, _ := json.Marshal(cw)
@@ -850,7 +910,9 @@ func c19Describe(cw *C19World) string {
 				s += fmt.Sprintf("(panic@%d)", op.FailAt)
 			}
 		case "map", "each":
-			if op.FailAt > 0 {
+			if op.FailAt > 0 && op.Panic {
+				s += fmt.Sprintf("(panic@%d)", op.FailAt)
+			} else if op.FailAt > 0 {
 				s += fmt.Sprintf("(fail@%d)", op.FailAt)
 			}
 		case "find":
